@@ -338,6 +338,8 @@ def check(pid, tier, only=None, jobs=None, verbose=False):
     os.makedirs(os.path.join(OUT, 'evidence'), exist_ok=True)
     if not only:
         json.dump(ev, open(os.path.join(OUT, 'evidence', pid + '.json'), 'w'), indent=1, default=repr)
+        # a per-tier copy, so that the last quick and the last thorough run can both be inspected
+        json.dump(ev, open(os.path.join(OUT, 'evidence', '%s.%s.json' % (pid, tier)), 'w'), indent=1, default=repr)
 
     by = {}
     for f in finals:
